@@ -6,7 +6,7 @@ import random
 from . import engine, gen
 from .engine import H, run_scenario
 from .oracles_basic import C01, C02, C03
-from .oracles_tree import C04, C05, C06
+from .oracles_tree import C04, C05, C06, Ledger
 from .oracles_flat import C07, C08, C12, StopOutsideProviso
 from .oracles_misc import C09, C10, C11, C13
 
@@ -52,7 +52,7 @@ class Check:
     oracles = ()
     judged = None
     sizes = {"quick": 2000, "thorough": 40000}
-    budget_s = {"quick": 100, "thorough": 1200}
+    budget_s = {"quick": 240, "thorough": 2400}
     selftest = {"quick": 24, "thorough": 200}
     chunk = 50
     rule = ""
@@ -281,8 +281,7 @@ class CheckC01(Check):
                   "minimised explicit histories")
     oracles = (C01,)
     judged = {"C01"}
-    sizes = {"quick": 6000, "thorough": 200000}
-    budget_s = {"quick": 90, "thorough": 1500}
+    sizes = {"quick": 18000, "thorough": 400000}
     chunk = 40
     rule = ("seeded swarm over algorithm x partition x box x parameters x reward program x RNG policy x T<=n, within the provisos "
             "of the statement (depth caps that hold the budget); a run is non-trivial if it completed >= 10 rounds and made >= 1 "
@@ -318,7 +317,7 @@ class CheckC02(Check):
     level_text = ("exact float tiling check of every split produced by seeded expansion orders and split draws, plus a leaf-tiling check at "
                   "the end of each run; numeric half of the statement only")
     oracles = (C02,)
-    sizes = {"quick": 5000, "thorough": 150000}
+    sizes = {"quick": 4000, "thorough": 60000}
     rule = ("(a) raw partitions driven by seeded schedules of deepen()/make_children(leaf) and (b) every expansion of algorithm "
             "runs; non-trivial = >= 3 expansions; distinct = (driver, partition class, K, d, RNG policy, final leaf-set hash)")
     assumptions = ["floats only: the 'arbitrary real bounds, symbolically' half of the statement is not decided here",
@@ -350,6 +349,7 @@ class CheckC02(Check):
 
 class CheckC03(CheckC02):
     prop = "C03"
+    sizes = {"quick": 10000, "thorough": 300000}
     design_ref = "DESIGN.md 5.3"
     technique = ("deterministic simulation: seeded interleavings of deepen/make_children and algorithm runs, refinement check against a "
                  "shadow tree built from observed node constructions")
@@ -397,7 +397,7 @@ class CheckC04(Check):
     prop = "C04"
     design_ref = "DESIGN.md 5.4"
     oracles = (C04,)
-    sizes = {"quick": 3000, "thorough": 100000}
+    sizes = {"quick": 6000, "thorough": 150000}
     chunk = 30
     technique = ("deterministic simulation: reward ledger (conservation / exactly-once) kept by the simulated client and diffed against "
                  "every reachable cell and against recording base learners after every round")
@@ -410,7 +410,7 @@ class CheckC04(Check):
     assumptions = ["StroquOOL's restart of its final candidates' lists at the start of validation is the documented exception",
                    "rounds after an algorithm terminated its own schedule (StroquOOL end, GPO after the last phase) need not be recorded",
                    "reads node evidence through the getters / attributes named in the property's anchors"]
-    fault_kinds = CheckC01.fault_kinds
+    fault_kinds = CheckC01.fault_kinds + ["interject-query", "mid-round-query"]
     probe_names = ["stroquool-validation-restart", "stroquool-terminated", "gpo-validation-rounds", "gpo-rounds-after-schedule"]
 
     def generate(self, r, seed, tier):
@@ -419,8 +419,8 @@ class CheckC04(Check):
                                 ("Zooming", 2)])
         pool = gen.PARTS_BINARY_CHILD if algo == "VROOM" else None
         n = r.choice([100, 128, 200, 300, 400])
-        sc = gen.base_scenario(r, seed, algo, parts=pool, n=n, cap_mode="big", ok_only=True,
-                               sched_prob=0.2 if algo in ("T_HOO", "HCT", "VHCT", "Zooming", "POO") else 0.0)
+        # recommendation queries between rounds and between a pull and its reward (reads on the current tree)
+        sc = gen.base_scenario(r, seed, algo, parts=pool, n=n, cap_mode="big", ok_only=True, sched_prob=0.3, mid_prob=0.5)
         if algo in ("GPO", "PCT", "VPCT"):
             d = derived(sc)
             if d.get("gpo_L_zero"):
@@ -431,9 +431,9 @@ class CheckC04(Check):
 class CheckC05(Check):
     prop = "C05"
     design_ref = "DESIGN.md 5.5"
-    oracles = (C04, C05, C06)
+    oracles = (Ledger, C05, C06)
     judged = {"C05"}
-    sizes = {"quick": 1500, "thorough": 40000}
+    sizes = {"quick": 4000, "thorough": 60000}
     chunk = 12
     technique = ("deterministic simulation: layered refinement check of U, B, path and stop rule, re-derived from the raw history after "
                  "every round (nondeterministic specification with admissible sets)")
@@ -476,9 +476,9 @@ class CheckC06(CheckC05):
 class CheckC08(Check):
     prop = "C08"
     design_ref = "DESIGN.md 5.8"
-    oracles = (StopOutsideProviso, C04, C08)
+    oracles = (StopOutsideProviso, Ledger, C08)
     judged = {"C08"}
-    sizes = {"quick": 4000, "thorough": 120000}
+    sizes = {"quick": 6000, "thorough": 100000}
     chunk = 40
     technique = ("deterministic simulation: nondeterministic specification of the optimistic sweep evaluated on shadow state (ledger + "
                  "shadow tree) at every expansion and every hand-out")
@@ -503,9 +503,9 @@ class CheckC08(Check):
 class CheckC12(Check):
     prop = "C12"
     design_ref = "DESIGN.md 5.12"
-    oracles = (C04, C12)
+    oracles = (Ledger, C12)
     judged = {"C12"}
-    sizes = {"quick": 5000, "thorough": 150000}
+    sizes = {"quick": 12000, "thorough": 300000}
     chunk = 50
     technique = ("deterministic simulation: opening-schedule specification evaluated on shadow state at every expansion and every round")
     level_text = ("every opening (depth order, per-depth budget floor(h_max/h), best unopened cell, children evaluated once and in order) and "
@@ -528,9 +528,9 @@ class CheckC12(Check):
 class CheckC07(Check):
     prop = "C07"
     design_ref = "DESIGN.md 5.7"
-    oracles = (StopOutsideProviso, C04, C07)
+    oracles = (StopOutsideProviso, Ledger, C07)
     judged = {"C07"}
-    sizes = {"quick": 5000, "thorough": 150000}
+    sizes = {"quick": 10000, "thorough": 300000}
     chunk = 50
     technique = ("deterministic simulation: the simulated client's ledger of (cell, point, reward) versus the recommendation, under "
                  "sign/tie reward adversaries and short runs")
@@ -565,10 +565,10 @@ RHOMAX_GRID = [0.3, 0.5, 0.7, 0.8, 0.85, 0.9, 0.93, 0.95]
 class CheckC09(Check):
     prop = "C09"
     design_ref = "DESIGN.md 5.9"
-    oracles = (C04, C09)
+    oracles = (C09,)
     judged = {"C09"}
     table_n = {"quick": (100, 400), "thorough": (100, 3000)}
-    extra = {"quick": 1200, "thorough": 30000}
+    extra = {"quick": 4000, "thorough": 60000}
     chunk = 40
     technique = ("deterministic simulation with recording base learners (peer spies): reference schedule (reward independent) enumerated "
                  "exhaustively over a range of n x rho_max grid, plus seeded search over reward histories, partitions and boxes")
@@ -640,7 +640,7 @@ class CheckC10(Check):
     prop = "C10"
     design_ref = "DESIGN.md 5.10"
     oracles = (C10,)
-    sizes = {"quick": 2500, "thorough": 60000}
+    sizes = {"quick": 6000, "thorough": 60000}
     chunk = 25
     technique = ("deterministic simulation with recording base learners: routing / exactly-once ledger per learner, scores against true "
                  "means, rho grid membership, after every round")
@@ -668,9 +668,9 @@ class CheckC10(Check):
 class CheckC11(Check):
     prop = "C11"
     design_ref = "DESIGN.md 5.11"
-    oracles = (C04, C11)
+    oracles = (Ledger, C11)
     judged = {"C11"}
-    sizes = {"quick": 4000, "thorough": 150000}
+    sizes = {"quick": 12000, "thorough": 400000}
     chunk = 40
     technique = ("deterministic simulation: coverage invariant over the leaves, index maximality and refinement rule checked after every "
                  "round; midpoint partitions (arm on the shared face) generated on purpose")
@@ -696,10 +696,9 @@ class CheckC11(Check):
 class CheckC13(Check):
     prop = "C13"
     design_ref = "DESIGN.md 5.13"
-    oracles = (C04, C13)
+    oracles = (Ledger, C13)
     judged = {"C13"}
-    sizes = {"quick": 500, "thorough": 12000}
-    budget_s = {"quick": 110, "thorough": 1500}
+    sizes = {"quick": 3000, "thorough": 30000}
     chunk = 4
     technique = ("deterministic simulation with the simulator owning np.random.choice/randint/uniform: the probability vector passed, the "
                  "outcome forced (least likely / first / last cell) and the designated cell are all observed")
@@ -821,8 +820,8 @@ def _twin_base(r, seed, algo, **kw):
 class CheckC14(TwinCheck):
     prop = "C14"
     design_ref = "DESIGN.md 5.14"
-    sizes = {"quick": 1500, "thorough": 40000}
-    fresh = {"quick": 160, "thorough": 3000}
+    sizes = {"quick": 3000, "thorough": 60000}
+    fresh = {"quick": 300, "thorough": 3000}
     chunk = 20
     technique = ("deterministic simulation: the same scenario replayed in-process, under allocation noise and a jumping clock with "
                  "tripwires on foreign randomness, in fresh interpreters under other PYTHONHASHSEED values, and two instances interleaved "
@@ -850,7 +849,9 @@ class CheckC14(TwinCheck):
         d = len(A["domain"])
         free = A["partition"]["cls"] == "DimensionBinaryPartition" or (d == 1 and A["partition"]["cls"] in ("BinaryPartition", "KaryPartition"))
         if free and algo != "VROOM" and r.random() < 0.8:
-            balgo = r.choice([a for a in gen.ALGOS_ALL if a != "VROOM"])
+            # half of the time the second instance is of the same class with other parameters: state shared
+            # between instances of one class (class attributes, caches keyed too coarsely) shows exactly then
+            balgo = algo if r.random() < 0.5 else r.choice([a for a in gen.ALGOS_ALL if a != "VROOM"])
             pool = [{"cls": "DimensionBinaryPartition"}] if d > 1 else \
                 [{"cls": "BinaryPartition"}, {"cls": "DimensionBinaryPartition"}, {"cls": "KaryPartition", "K": 3}, {"cls": "KaryPartition", "K": 2}]
             B = _twin_base(r, seed + 1, balgo, n=r.choice([100, 128]), parts=pool, real_prob=1.0)
@@ -863,6 +864,9 @@ class CheckC14(TwinCheck):
         return sc
 
     record_all_digests = 3000
+    # the generic digest self-test is this property itself here: repeats happen inside every run and the
+    # fresh-interpreter comparison is post_batch(), where a difference is a verdict, not a harness fault
+    selftest = {"quick": 0, "thorough": 0}
 
     def run(self, sc):
         from .twins import run_c14, run_c14_hashseed
@@ -903,7 +907,7 @@ class CheckC14(TwinCheck):
 class CheckC15(TwinCheck):
     prop = "C15"
     design_ref = "DESIGN.md 5.15"
-    sizes = {"quick": 2500, "thorough": 80000}
+    sizes = {"quick": 5000, "thorough": 100000}
     chunk = 25
     technique = ("deterministic simulation: twin runs of one seeded scenario that differ only in the time labels passed (0-based, offset, "
                  "gapped) or in get_last_point calls interjected by the scheduler; event-log equality")
@@ -938,7 +942,7 @@ class CheckC15(TwinCheck):
 class CheckC16(TwinCheck):
     prop = "C16"
     design_ref = "DESIGN.md 5.16"
-    sizes = {"quick": 2500, "thorough": 80000}
+    sizes = {"quick": 15000, "thorough": 300000}
     chunk = 25
     technique = ("deterministic simulation: lock-step twin runs on a box and on its affine image under one scripted RNG stream owned by the "
                  "simulator; mapped event-log equality (bit-exact class / 1e-9 tolerance class)")
@@ -988,6 +992,7 @@ class CheckC16(TwinCheck):
         sc["kind"] = "c16"
         sc["A"] = A
         sc["mode"] = mode
+        sc["coord_sensitive"] = bool(coord_sensitive or doo_default)
         return sc
 
     def distinct_key(self, sc, res):
